@@ -15,7 +15,7 @@ import (
 
 // Chars maps character ids of JV.CharIds to text (same table as JV.Width).
 var Chars = map[string]string{"a": "a", "b": "b", "e2": "é", "w3": "世", "g4": "\U0001F600",
-	"pc": "%", "bt": "`", "qt": "\"", "bs": "\\", "nl": "\n", "sp": " ", "d1": "1", "us": "_", "hy": "-"} // the last nine are used in names / enum values only
+	"pc": "%", "bt": "`", "qt": "\"", "bs": "\\", "nl": "\n", "sp": " ", "d1": "1", "us": "_", "hy": "-", "cr": "\r", "tb": "\t"} // the last nine are used in names / enum values only
 
 var charOf = func() map[rune]string {
 	m := map[rune]string{}
@@ -28,7 +28,8 @@ var charOf = func() map[rune]string {
 // Patterns maps pattern ids of JV.PatIds to regular expressions with identical RE2 / ECMA-262 meaning.
 var Patterns = map[string]string{"p_a": "^a", "p_b": "b$", "p_ab": "^[ab]*$", "p_2": "^.{2}$",
 	"p_pct": "^[ab%]*$", "p_esc": `^\x61+$`,
-	"p_qt": `^"a"$`, "p_cls": `^\w+\s?$`, "p_bt": "^a`b$"}
+	"p_qt": `^"a"$`, "p_cls": `^\w+\s?$`, "p_bt": "^a`b$",
+	"p_tsp": "^a ", "p_lsp": " b$", "p_ws": " ", "p_ttab": "^a\t"}
 
 // Descriptions maps hostile-text ids (spec/MC_C01.tla) to text.
 var Descriptions = map[string]string{
